@@ -1,4 +1,11 @@
-"""C03 - a rendered phase field is a faithful, finite picture of the droplet"""
+"""C03 - a rendered phase field is a faithful, finite picture of the droplet
+
+Structure: C03Polar proves that `polar_coordinates` (distance and angles of every cell centre from the
+droplet centre) equals the harness's own periodic minimum-image geometry for all centres.  The rendering
+harnesses then take the distances/angles returned by `polar_coordinates` for the same symbolic centre as
+given (the second call yields the identical terms) and decide the profile obligations on them; both sets
+of obligations are universally quantified over the same inputs, so together they give the property.
+"""
 from fractions import Fraction as F
 import itertools
 import math
@@ -12,7 +19,6 @@ def _ix(idx):
     return "[" + ",".join(str(i) for i in idx) + "]"
 
 
-# grid configurations shared by the C03 harnesses
 def grid_cfgs(tier, dims=(1, 2, 3), radial=True, big=False):
     c = []
     if 1 in dims:
@@ -20,11 +26,13 @@ def grid_cfgs(tier, dims=(1, 2, 3), radial=True, big=False):
     if 2 in dims:
         c += [dict(kind="cart", shape=[3, 3], per="pn"), dict(kind="cart", shape=[3, 2], per="np", sp="b", org="0")]
         if tier == "thorough" or big:
-            c += [dict(kind="cart", shape=[4, 3], per="pp"), dict(kind="cart", shape=[4, 4], per="nn")]
+            c += [dict(kind="cart", shape=[4, 3], per="pp")]
+        if tier == "thorough":
+            c += [dict(kind="cart", shape=[4, 4], per="nn")]
         if radial:
             c += [dict(kind="polar", R="5/2", n=4)]
     if 3 in dims:
-        c += [dict(kind="cart", shape=[2, 2, 2], per="npn")]
+        c += [dict(kind="cart", shape=[2, 2, 2], per="npn", sp="b", org="0")]
         if tier == "thorough":
             c += [dict(kind="cart", shape=[3, 2, 2], per="pnp")]
         if radial:
@@ -54,56 +62,149 @@ def grid_periods(env, sp):
     return [None] * sp["dim"]
 
 
-def droplet_centre(env, sp, sample=None, rng=None):
-    """symbolic centre compatible with the grid's symmetry; returns list of coordinates"""
-    dim = len(sp["shape"]) if sp["kind"] == "cart" else sp["dim"]
-    if sp["kind"] == "cart":
-        c = []
-        for a in range(dim):
-            lo, hi = sp["bounds"][a]
-            L = hi - lo
-            c.append(env.real(f"c{a}", lo - L, hi + L) if sp["periodic"][a] else env.real(f"c{a}", lo - 1, hi + 1))
-        return c
-    if sp["kind"] in ("polar", "spherical"):
-        return [0] * dim
-    return [0, 0, env.real("c2", sp["z0"] - 1, sp["z1"] + 1)]
+def gdim(sp):
+    return len(sp["shape"]) if sp["kind"] == "cart" else sp["dim"]
 
 
-def sample_centre(sp, rng, w):
+def centre_ranges(sp):
+    """per coordinate None (fixed to 0 by symmetry) or (lo, hi) of the symbolic centre"""
     if sp["kind"] == "cart":
+        out = []
         for a, ((lo, hi), per) in enumerate(zip(sp["bounds"], sp["periodic"])):
             L = hi - lo
-            a0, a1 = (lo - L, hi + L) if per else (lo - 1, hi + 1)
-            w[f"c{a}"] = a0 + (a1 - a0) * F(rng.randint(0, 10000), 10000)
-    elif sp["kind"] == "cyl":
-        w["c2"] = sp["z0"] - 1 + (sp["z1"] - sp["z0"] + 2) * F(rng.randint(0, 10000), 10000)
+            out.append((lo - L / 2, hi + L / 2) if per else (lo - sp["spacing"][a], hi + sp["spacing"][a]))
+        return out
+    if sp["kind"] in ("polar", "spherical"):
+        return [None] * sp["dim"]
+    return [None, None, (sp["z0"] - sp["dz"], sp["z1"] + sp["dz"])]
+
+
+def droplet_centre(env, sp, name="c"):
+    return [0 if rg is None else env.real(f"{name}{a}", rg[0], rg[1]) for a, rg in enumerate(centre_ranges(sp))]
+
+
+def sample_centre(sp, rng, w, name="c"):
+    for a, rg in enumerate(centre_ranges(sp)):
+        if rg is not None:
+            w[f"{name}{a}"] = rg[0] + (rg[1] - rg[0]) * F(rng.randint(0, 10000), 10000)
+
+
+def code_polar(env, grid, c, ret_angle):
+    return env.SPH.polar_coordinates(grid, origin=env.array(c), ret_angle=ret_angle)
 
 
 def levels(env):
-    vmin, vmax = env.real("vmin", -4, 4), env.real("vmax", -4, 4)
-    return vmin, vmax
+    return env.real("vmin", -4, 4), env.real("vmax", -4, 4)
 
 
 def check_levels(env, tag, v, vmin, vmax, inside):
-    """value between the levels; exceeds the midpoint (towards vmax) exactly when `inside`"""
+    """value finite, between the levels; beyond the midpoint (towards vmax) exactly when `inside`"""
     lo, hi = env.min(vmin, vmax), env.max(vmin, vmax)
+    env.prove(f"value is finite {tag}", env.finite(v))
+    if not env.finite(v):
+        return
     env.prove(f"value lies between the outside and inside values {tag}", env.And(env.le(lo, v), env.le(v, hi)))
-    mid2 = vmin + vmax
     env.prove(f"beyond the midpoint exactly when the centre is inside the interface {tag}",
-              env.Implies(env.Not(env.eq(vmin, vmax)), env.Iff((2 * v - mid2) * (vmax - vmin) > 0, inside)))
+              env.Implies(env.Not(env.eq(vmin, vmax)), env.Iff((2 * v - (vmin + vmax)) * (vmax - vmin) > 0, inside)))
+
+
+def check_sharp(env, tag, v, vmin, vmax, inside):
+    env.prove(f"value is finite {tag}", env.finite(v))
+    if not env.finite(v):
+        return
+    env.prove(f"sharp droplet: exactly the indicator {tag}", env.And(
+        env.Implies(inside, env.eq(v, vmax)), env.Implies(env.Not(inside), env.eq(v, vmin))))
+
+
+class C03Polar(Harness):
+    name = "C03Polar"
+    prop = "C03"
+    bounds = ("polar_coordinates on Cartesian 1D 5 / 2D 3x3 pn, 3x2 np, 4x3 pp / 3D 2x2x2 npn, polar 4, spherical 4, "
+              "cylindrical 2x3 (both periodic_z); droplet centre symbolic (half a period / one cell around the box)")
+    stubs = ["py-pde grid model", "arccos(u)=t: cos t = u, sin t >= 0; arctan2(y,x)=p: hypot*cos p = x, hypot*sin p = y; "
+             "sin^2+cos^2=1 per argument term", "sqrt lazy"]
+    cost = 2
+    mod_mode = "fork"
+    angle_axioms = True
+
+    def configs(self, tier):
+        return grid_cfgs(tier)
+
+    def sample(self, cfg, rng):
+        w = {}
+        sample_centre(gridfam.spec_of(cfg), rng, w)
+        if not w:
+            w["dummy"] = F(0)
+        return w
+
+    def body(self, env, cfg):
+        grid, sp = gridfam.make(env, cfg)
+        dim = gdim(sp)
+        c = droplet_centre(env, sp)
+        if all(x is None for x in centre_ranges(sp)):
+            env.real("dummy", 0, 0)
+        per = grid_periods(env, sp)
+        res = code_polar(env, grid, c, True)
+        dist_only = code_polar(env, grid, c, False)
+        dist, angles = res[0], res[1:]
+        env.prove("number of angle arrays", len(angles) == (1 if dim < 3 else 2))
+        for idx, ctr in centres(sp):
+            dv = [ctr[a] - c[a] for a in range(dim)]
+            dv = [minimage(env, dv[a], per[a], kmax=2) if per[a] is not None else dv[a] for a in range(dim)]
+            d2 = sum((x * x for x in dv), env.const(0))
+            dd = dist[idx]
+            env.prove(f"distance is finite {_ix(idx)}", env.finite(dd) and env.finite(dist_only[idx]))
+            if not env.finite(dd):
+                continue
+            dd = env.num(dd)
+            env.prove(f"distance = periodic minimum-image distance {_ix(idx)}", env.And(dd >= 0, env.eq(dd * dd, d2)))
+            env.prove_eq(f"distance without angles agrees {_ix(idx)}", dist_only[idx], dd)
+            for k, a in enumerate(angles):
+                env.prove(f"angle {k} is finite {_ix(idx)}", env.finite(a[idx]))
+            if not all(env.finite(a[idx]) for a in angles):
+                continue
+            dm = env.mat(dd)
+            if dim == 1:
+                s = env.num(angles[0][idx])
+                env.prove(f"1D angle = sign of the difference {_ix(idx)}", env.And(
+                    env.Implies(dv[0] > 0, env.eq(s, 1)), env.Implies(dv[0] < 0, env.eq(s, -1)),
+                    env.Implies(env.eq(dv[0], 0), env.eq(s, 0))))
+            elif dim == 2:
+                ph = env.num(angles[0][idx])
+                env.prove(f"2D angle: distance * (cos, sin) = minimum-image vector {_ix(idx)}", env.And(
+                    env.eq(dm * env.cos(ph), dv[0]), env.eq(dm * env.sin(ph), dv[1])))
+            else:
+                th, ph = env.num(angles[0][idx]), env.num(angles[1][idx])
+                st, ct = env.sin(th), env.cos(th)
+                env.prove(f"3D polar angle: distance * cos(theta) = dz, sin(theta) >= 0 {_ix(idx)}",
+                          env.And(env.eq(dm * ct, dv[2]), env.Implies(dm > 0, env.le(0, st))))
+                env.prove(f"3D azimuth: distance * sin(theta) * (cos, sin)(phi) = (dx, dy) {_ix(idx)}", env.And(
+                    env.eq(dm * st * env.cos(ph), dv[0]), env.eq(dm * st * env.sin(ph), dv[1])))
+        env.cover("centre exactly on a cell centre", env.Or(*[
+            env.And(*[env.eq(ctr[a], c[a]) for a in range(dim)]) for _, ctr in centres(sp)]))
+        env.observe("d0", dist.flat[0])
 
 
 class C03Sharp(Harness):
     name = "C03Sharp"
     prop = "C03"
-    bounds = ("SphericalDroplet and DiffuseDroplet(width=0) on Cartesian 1D 5 / 2D 3x3, 3x2 / 3D 2x2x2, polar 4, spherical 4, "
-              "cylindrical 2x3; centre (one period around the box), radius>=0, vmin, vmax symbolic")
-    stubs = ["py-pde grid / ScalarField model"]
+    bounds = ("SphericalDroplet and DiffuseDroplet(width=0) on Cartesian 1D 5 / 2D 3x2, 3x3 / 3D 2x2x2 (thorough), polar, "
+              "spherical, cylindrical; centre, radius>=0, vmin, vmax symbolic; float and boolean rendering")
+    stubs = ["py-pde grid / ScalarField model", "distances taken from polar_coordinates (C03Polar)"]
     cost = 3
     mod_mode = "fork"
 
     def configs(self, tier):
-        return [dict(g, cls=c) for g in grid_cfgs(tier) for c in ("SphericalDroplet", "DiffuseDroplet")]
+        gs = grid_cfgs(tier)
+        out = []
+        for g in gs:
+            heavy = g["kind"] == "cart" and len(g["shape"]) >= 2
+            if heavy and tier != "thorough" and g["shape"] != [3, 2]:
+                continue
+            out.append(dict(g, cls="SphericalDroplet"))
+            if not heavy or tier == "thorough":
+                out.append(dict(g, cls="DiffuseDroplet"))
+        return out
 
     def sample(self, cfg, rng):
         sp = gridfam.spec_of(cfg)
@@ -118,18 +219,13 @@ class C03Sharp(Harness):
         vmin, vmax = levels(env)
         d = env.D.SphericalDroplet(c, r) if cfg["cls"] == "SphericalDroplet" else env.D.DiffuseDroplet(c, r, 0)
         f = d.get_phase_field(grid, vmin=vmin, vmax=vmax)
-        per = grid_periods(env, sp)
-        for idx, ctr in centres(sp):
-            v = env.num(f.data[idx])
-            d2 = dist_sq(env, ctr, c, per, kmax=2)
-            inside = d2 < r * r
-            env.prove(f"sharp droplet: exactly the indicator {_ix(idx)}", env.And(
-                env.Implies(inside, env.eq(v, vmax)), env.Implies(env.Not(inside), env.eq(v, vmin))))
         b = d._get_phase_field(grid, dtype=bool)
+        dist = code_polar(env, grid, c, False)
         env.prove("boolean rendering has dtype bool", b.dtype == bool)
-        for idx, ctr in centres(sp):
-            env.prove(f"boolean rendering = inside {_ix(idx)}",
-                      env.Iff(bool(b[idx]), dist_sq(env, ctr, c, per, kmax=2) < r * r))
+        for idx, _ in centres(sp):
+            inside = env.num(dist[idx]) < r
+            check_sharp(env, _ix(idx), env.num(f.data[idx]), vmin, vmax, inside)
+            env.prove(f"boolean rendering = inside {_ix(idx)}", env.Iff(bool(b[idx]), inside))
         env.cover("radius zero", r == 0)
         env.observe("sum", sum(float(x) for x in f.data.flat) if env.mode != "sym" else 0)
 
@@ -137,14 +233,15 @@ class C03Sharp(Harness):
 class C03Diffuse(Harness):
     name = "C03Diffuse"
     prop = "C03"
-    bounds = ("DiffuseDroplet with interface width symbolic > 0 or unset, same grids as C03Sharp (+ 4x3 pp); centre, "
-              "radius>=0, width, vmin, vmax symbolic; per cell and per pair of cells")
-    stubs = ["py-pde grid / ScalarField model", "tanh abstracted: strictly increasing, odd, range (-1,1), sign preserving"]
+    bounds = ("DiffuseDroplet with interface width symbolic > 0 or unset on every grid of C03Polar; centre, radius>=0, "
+              "width, vmin, vmax symbolic; per cell and per pair of cells (monotone in distance)")
+    stubs = ["py-pde grid / ScalarField model", "tanh abstracted: strictly increasing, odd, range (-1,1), sign preserving",
+             "distances taken from polar_coordinates (C03Polar)"]
     cost = 3
-    mod_mode = "disj"
+    mod_mode = "fork"
 
     def configs(self, tier):
-        return [dict(g, width=w) for g in grid_cfgs(tier, big=True) for w in ("sym", "none")]
+        return [dict(g, width=w) for g in grid_cfgs(tier) for w in ("sym", "none")]
 
     def sample(self, cfg, rng):
         sp = gridfam.spec_of(cfg)
@@ -165,22 +262,22 @@ class C03Diffuse(Harness):
             d = env.D.DiffuseDroplet(c, r)
             env.prove("unset width reads back as None", d.interface_width is None)
         f = d.get_phase_field(grid, vmin=vmin, vmax=vmax)
-        per = grid_periods(env, sp)
-        cs = centres(sp)
-        D2 = {}
-        for idx, ctr in cs:
-            v = env.num(f.data[idx])
-            D2[idx] = dist_sq(env, ctr, c, per, kmax=2)
-            check_levels(env, _ix(idx), v, vmin, vmax, D2[idx] < r * r)
         raw = d._get_phase_field(grid)
+        dist = code_polar(env, grid, c, False)
+        cs = centres(sp)
+        for idx, _ in cs:
+            check_levels(env, _ix(idx), env.num(f.data[idx]), vmin, vmax, env.num(dist[idx]) < r)
+            v = env.num(raw[idx])
+            env.prove(f"normalised profile within [0, 1] {_ix(idx)}", env.And(env.le(0, v), env.le(v, 1)))
         pairs = list(itertools.combinations([i for i, _ in cs], 2))
-        if len(pairs) > 40:
-            pairs = pairs[::max(1, len(pairs) // 40)]
+        if len(pairs) > 24:
+            pairs = pairs[::len(pairs) // 24 + 1]
         for i, j in pairs:
             vi, vj = env.num(raw[i]), env.num(raw[j])
+            di, dj = env.mat(dist[i]), env.mat(dist[j])
             env.prove(f"value never increases with distance {_ix(i + j)}", env.And(
-                env.Implies(D2[i] <= D2[j], vi >= vj), env.Implies(D2[j] <= D2[i], vj >= vi)))
-        env.cover("a cell centre exactly on the interface", env.Or(*[D2[i] == r * r for i, _ in cs]))
+                env.Implies(di <= dj, env.le(vj, vi)), env.Implies(dj <= di, env.le(vi, vj))))
+        env.cover("a cell centre exactly on the interface", env.Or(*[env.num(dist[i]) == r for i, _ in cs]))
         env.observe("sum", sum(float(x) for x in f.data.flat) if env.mode != "sym" else 0)
 
 
@@ -193,19 +290,54 @@ def interface_2d(env, r, amps, phi):
     return r * tot
 
 
-class C03Perturbed2D(Harness):
-    name = "C03Perturbed2D"
+def real_harmonic(env, k, theta, phi):
+    """real spherical harmonic of combined index k = l(l+1)+m, standard definition in terms of Y_l^|m|"""
+    l = math.isqrt(k)
+    m = k - l * (l + 1)
+    if env.mode == "float":
+        from scipy.special import sph_harm_y
+        y = complex(sph_harm_y(l, abs(m), theta, phi))
+        re, im = y.real, y.imag
+    else:
+        from symx.models.special import sph_harm_y
+        y = sph_harm_y(l, abs(m), theta, phi)
+        re, im = y.re, y.im
+    if m == 0:
+        return re
+    s2 = env.const(F(math.sqrt(2)))     # the code multiplies by the double np.sqrt(2)
+    sign = -1 if abs(m) % 2 else 1
+    return sign * s2 * (re if m > 0 else im)
+
+
+class C03Perturbed(Harness):
+    name = "C03Perturbed"
     prop = "C03"
-    bounds = ("PerturbedDroplet2D with 2 (thorough 4) amplitudes in [-1,1], width symbolic>0 / 0, on Cartesian 3x3 (pn), "
-              "3x2 (np); centre, radius, width, amplitudes, vmin, vmax symbolic")
-    stubs = ["tanh abstraction", "sin/cos abstraction (s^2+c^2=1 per argument term)", "arctan2: functional consistency"]
+    bounds = ("PerturbedDroplet2D (1,2 amplitudes; thorough 4) on Cartesian 3x3 pn / 3x2 np; PerturbedDroplet3D (1,3 "
+              "amplitudes; thorough 4) on 2x2x2 npn; PerturbedDroplet3DAxisSym (1,2 amplitudes) on cylindrical 2x3; "
+              "width symbolic>0 / 0; centre, radius, amplitudes in [-1,1], vmin, vmax symbolic")
+    stubs = ["tanh abstraction", "sin/cos abstraction (s^2+c^2=1 per argument term)", "sph_harm_y: fresh complex symbol per "
+             "(l, m, theta term, phi term)", "distances and angles taken from polar_coordinates (C03Polar)"]
     cost = 5
     mod_mode = "fork"
+    trig_identity = False      # not needed for the profile obligations; keeps the queries small
 
     def configs(self, tier):
-        gs = [g for g in grid_cfgs(tier, dims=(2,), radial=False)]
-        c = [dict(g, modes=m, width=w) for g in gs for m in ((1, 2) + ((4,) if tier == "thorough" else ()))
-             for w in ("sym", "zero")]
+        c = []
+        th = tier == "thorough"
+        for g in grid_cfgs(tier, dims=(2,), radial=False):
+            for m in (1, 2) + ((4,) if th else ()):
+                for w in ("sym", "zero"):
+                    if w == "zero" and not th:
+                        continue
+                    c.append(dict(g, cls="PerturbedDroplet2D", modes=m, width=w))
+        c.append(dict(kind="cart", shape=[2, 2], per="pn", sp="b", org="0", cls="PerturbedDroplet2D", modes=2, width="zero"))
+        for m in (1, 2) + ((3, 4) if th else ()):
+            c.append(dict(kind="cart", shape=[2, 2, 2], per="npn", sp="b", org="0", cls="PerturbedDroplet3D", modes=m,
+                          width="sym"))
+        for pz in (False, True):
+            for m in (1, 2):
+                c.append(dict(kind="cyl", shape=[2, 3], R="1", z0="-1", z1="2", pz=pz, cls="PerturbedDroplet3DAxisSym",
+                              modes=m, width="sym"))
         return c
 
     def sample(self, cfg, rng):
@@ -224,23 +356,125 @@ class C03Perturbed2D(Harness):
         vmin, vmax = levels(env)
         amps = [env.real(f"a{k}", -1, 1) for k in range(cfg["modes"])]
         w = env.real("w", 0, 2, strict_lo=True) if cfg["width"] == "sym" else 0
-        d = env.D.PerturbedDroplet2D(c, r, w, amps)
+        d = getattr(env.D, cfg["cls"])(c, r, w, amps)
         f = d.get_phase_field(grid, vmin=vmin, vmax=vmax)
-        per = grid_periods(env, sp)
-        for idx, ctr in centres(sp):
-            v = env.num(f.data[idx])
-            dv = [ctr[a] - c[a] for a in range(2)]
-            dv = [minimage(env, dv[a], per[a], kmax=2) if per[a] is not None else dv[a] for a in range(2)]
-            d2 = dv[0] * dv[0] + dv[1] * dv[1]
-            phi = env.arctan2(dv[1], dv[0])
-            I = interface_2d(env, r, amps, phi)
-            inside = env.And(I > 0, d2 < I * I)
-            if cfg["width"] == "zero":
-                env.prove(f"sharp perturbed droplet: exactly the indicator {_ix(idx)}", env.And(
-                    env.Implies(inside, env.eq(v, vmax)), env.Implies(env.Not(inside), env.eq(v, vmin))))
+        res = code_polar(env, grid, c, True)
+        dist, angles = res[0], res[1:]
+        for idx, _ in centres(sp):
+            if not all(env.finite(a[idx]) for a in angles):
+                env.prove(f"value is finite {_ix(idx)}", env.finite(f.data[idx]))
+                continue
+            if cfg["cls"] == "PerturbedDroplet2D":
+                I = interface_2d(env, r, amps, env.num(angles[0][idx]))
+            elif cfg["cls"] == "PerturbedDroplet3D":
+                th, ph = env.num(angles[0][idx]), env.num(angles[1][idx])
+                I = r * (1 + sum((amps[k] * real_harmonic(env, k + 1, th, ph) for k in range(len(amps))), env.const(0)))
             else:
-                check_levels(env, _ix(idx), v, vmin, vmax, inside)
+                th = env.num(angles[0][idx])
+                I = r * (1 + sum((amps[k] * real_harmonic(env, (k + 1) * (k + 2), th, 0) for k in range(len(amps))),
+                                 env.const(0)))
+            inside = env.num(dist[idx]) < I
+            if cfg["width"] == "zero":
+                check_sharp(env, _ix(idx), env.num(f.data[idx]), vmin, vmax, inside)
+            else:
+                check_levels(env, _ix(idx), env.num(f.data[idx]), vmin, vmax, inside)
         env.observe("sum", sum(float(x) for x in f.data.flat) if env.mode != "sym" else 0)
 
 
-HARNESSES = [C03Sharp, C03Diffuse, C03Perturbed2D]
+class C03Translate(Harness):
+    name = "C03Translate"
+    prop = "C03"
+    bounds = ("DiffuseDroplet (width symbolic>0) and SphericalDroplet on periodic Cartesian 1D 5 / 2D 3x3 pn, 4x3 pp "
+              "(thorough): translation by m in {1,-2} cells along each periodic axis rolls the field")
+    stubs = ["tanh abstraction", "py-pde grid model"]
+    cost = 4
+    mod_mode = "fork"
+
+    def configs(self, tier):
+        gs = [dict(kind="cart", shape=[5], per="p"), dict(kind="cart", shape=[3, 3], per="pn")]
+        if tier == "thorough":
+            gs.append(dict(kind="cart", shape=[4, 3], per="pp"))
+        return [dict(g, cls=cl, m=m) for g in gs for cl in ("DiffuseDroplet", "SphericalDroplet") for m in (1, -2)]
+
+    def sample(self, cfg, rng):
+        sp = gridfam.spec_of(cfg)
+        w = dict(r=F(rng.randint(0, 3000), 1000), w=F(rng.randint(1, 2000), 1000))
+        sample_centre(sp, rng, w)
+        return w
+
+    def body(self, env, cfg):
+        grid, sp = gridfam.make(env, cfg)
+        dim = gdim(sp)
+        c = droplet_centre(env, sp)
+        r = env.real("r", 0, 4)
+        m = cfg["m"]
+        mk = (lambda p: env.D.DiffuseDroplet(p, r, env.real("w", 0, 2, strict_lo=True))) \
+            if cfg["cls"] == "DiffuseDroplet" else (lambda p: env.D.SphericalDroplet(p, r))
+        base = mk(c)._get_phase_field(grid)
+        for a in range(dim):
+            if not sp["periodic"][a]:
+                continue
+            c2 = list(c)
+            c2[a] = c[a] + m * sp["spacing"][a]
+            moved = mk(c2)._get_phase_field(grid)
+            n = sp["shape"][a]
+            for idx, _ in centres(sp):
+                src = list(idx)
+                src[a] = (idx[a] - m) % n
+                env.prove_eq(f"translation by whole cells along a periodic axis rolls the field {_ix(idx)}",
+                             moved[idx], base[tuple(src)])
+        env.observe("b0", base.flat[0])
+
+
+class C03Emulsion(Harness):
+    name = "C03Emulsion"
+    prop = "C03"
+    bounds = ("Emulsion.get_phasefield with 2 (thorough 3) droplets (diffuse with symbolic width, one sharp) on Cartesian "
+              "1D 5 p and 2D 3x2 np: clip(sum, 0, 1) per cell, order independence, empty emulsion")
+    stubs = ["tanh abstraction", "py-pde grid / ScalarField model"]
+    cost = 4
+    mod_mode = "fork"
+
+    def configs(self, tier):
+        gs = [dict(kind="cart", shape=[5], per="p"), dict(kind="cart", shape=[3, 2], per="np", sp="b", org="0")]
+        out = [dict(g, K=2, sharp=s) for g in gs for s in (False, True) if not (s and len(g["shape"]) > 1 and tier != "thorough")]
+        if tier == "thorough":
+            out += [dict(g, K=3, sharp=False) for g in gs]
+        return out
+
+    def sample(self, cfg, rng):
+        sp = gridfam.spec_of(cfg)
+        w = {}
+        for k in range(cfg["K"]):
+            w[f"r{k}"] = F(rng.randint(0, 3000), 1000)
+            w[f"w{k}"] = F(rng.randint(1, 2000), 1000)
+            sample_centre(sp, rng, w, name=f"c{k}_")
+        return w
+
+    def body(self, env, cfg):
+        grid, sp = gridfam.make(env, cfg)
+        K = cfg["K"]
+        drops = []
+        for k in range(K):
+            c = droplet_centre(env, sp, name=f"c{k}_")
+            r = env.real(f"r{k}", 0, 4)
+            if cfg["sharp"] and k == K - 1:
+                drops.append(env.D.SphericalDroplet(c, r))
+            else:
+                drops.append(env.D.DiffuseDroplet(c, r, env.real(f"w{k}", 0, 2, strict_lo=True)))
+        singles = [d.get_phase_field(grid).data for d in drops]
+        f1 = env.E.Emulsion(drops).get_phasefield(grid).data
+        f2 = env.E.Emulsion(list(reversed(drops))).get_phasefield(grid).data
+        for idx, _ in centres(sp):
+            tot = sum((env.num(s[idx]) for s in singles), env.const(0))
+            want = env.min(env.max(tot, 0), 1)
+            env.prove_eq(f"emulsion field = clip(sum of droplet fields, 0, 1) {_ix(idx)}", f1[idx], want)
+            env.prove_eq(f"independent of droplet order {_ix(idx)}", f2[idx], f1[idx])
+        e0 = env.E.Emulsion([]).get_phasefield(grid).data
+        env.prove("empty emulsion gives the zero field", all(bool(env.eq(e0[idx], 0)) for idx, _ in centres(sp)))
+        env.cover("a clipped cell", env.Or(*[sum((env.num(s[idx]) for s in singles), env.const(0)) > 1
+                                             for idx, _ in centres(sp)]))
+        env.observe("f0", f1.flat[0])
+
+
+HARNESSES = [C03Polar, C03Sharp, C03Diffuse, C03Perturbed, C03Translate, C03Emulsion]
